@@ -11,6 +11,9 @@ import traceback
 ROOT = os.path.dirname(os.path.dirname(os.path.abspath(__file__)))
 
 
+FRAME_CHECK = True
+
+
 class UnitResult:
     def __init__(self, name):
         self.name = name
@@ -47,7 +50,16 @@ def _run_one(job):
 
         for k in smt.STATS:
             smt.STATS[k] = 0
+        from pyvc import frame
+
+        fp0 = frame.fingerprint() if FRAME_CHECK else None
         u = fn(*args)
+        if fp0 is not None and u.obligations:
+            changed = frame.diff_fingerprint(fp0, frame.fingerprint())
+            pid = u.name.split("/")[0]
+            u.obligations.append({"name": f"{u.name}/FRAME/shared-state-unchanged", "kind": "frame", "site": ", ".join(changed[:3]),
+                                  "status": "refuted" if changed else "proved", "backend": "evaluation", "seconds": 0.0, "model": None,
+                                  "detail": ("module/class state written during the unit: " + ", ".join(changed[:6])) if changed else "fingerprint of module/class state identical before and after"})
         u.seconds = time.time() - t0
         u.stats = dict(smt.STATS)
         return u
@@ -146,7 +158,10 @@ class Report:
                 known_hits.append((hit, ob))
                 continue
             rep = None
-            if self.replayer is not None:
+            if ob.get("kind") == "frame" and ob.get("backend") == "evaluation":
+                # observed on the real objects while the real code ran: the changed state is the witness
+                rep = {"reproduced": True, "input": {"unit": ob["name"].rsplit("/FRAME", 1)[0]}, "changed_state": ob.get("site"), "detail": ob.get("detail")}
+            elif self.replayer is not None:
                 try:
                     rep = self.replayer(ob)
                 except Exception:
